@@ -467,6 +467,7 @@ def run(repo, rep, tier):
 
     # R13.4 plumbing
     _plumbing(repo, rep)
+    _unknown_position(repo, rep)
     # the fallback tag exists exactly when the element renders a tag: a
     # use-macro element omits it (C09 owns the element details)
     from . import c09 as _c09
@@ -593,3 +594,30 @@ def _plumbing(repo, rep):
               "render() passes self.on_error_handler as '__on_error_handler'",
               construct="render-kwarg",
               where="%s:%d" % (f.module.relpath, f.node.lineno))
+
+
+def _unknown_position(repo, rep):
+    """Without a recorded token the position handed to the error object is
+    (None, None): both components are the constant None (the error's lineno
+    / offset are 'unknown', never a private sentinel object)."""
+    f = repo.func("chameleon.compiler.Compiler.visit_OnError")
+    res = L.emission(repo, f.qualname)
+    ok = False
+    detail = ""
+    for w in A.walk(res.emission):
+        if isinstance(w, A.Frag) and w.tree is not None:
+            for n in ast.walk(w.tree):
+                if isinstance(n, ast.IfExp) and "__token" in src(n.test):
+                    pt, flip = L._CanonIf._pos(n.test)
+                    none_side = n.body if (src(pt).replace(" ", "") ==
+                                           "__tokenisNone") != flip \
+                        else n.orelse
+                    detail = src(none_side)
+                    ok = isinstance(none_side, ast.Tuple) and \
+                        len(none_side.elts) == 2 and all(
+                            isinstance(e, ast.Constant) and e.value is None
+                            for e in none_side.elts)
+    rep.check(ok, "R13.1", f.qualname, "a failure without a recorded "
+              "position gives the error object (None, None)",
+              construct="position-unknown-none", where=L.where(f),
+              detail=detail)
